@@ -85,6 +85,63 @@ CHECKS["C20"] = dict(
     ref="6/C20",
 )
 
+CHECKS["C01"] = dict(
+    text="dispatch_conservation, exactly_once(_at_exit), return_correct (ordered modes: the result is exactly the task list in order "
+    "for every schedule, every task count, every scripted batch size, incl. late completions of earlier calls), "
+    "return_correct_unordered, no_hang, stale_callback_noop, auto_batch_size_ge_one over the Lean model M1 of "
+    "dispatch_one_batch/_dispatch/BatchCompletionCallBack/_start/_retrieve/__call__; the model's event log is compared for equality "
+    "with the real Parallel driven deterministically through a controllable backend; F11 witness proved.",
+    note="M1 granularity: completion callbacks are atomic and delivered at hook points of the caller (configure, compute_batch_size, sleep, consumer pauses) - exactly the schedules harness/ctl.py executes on the real Parallel on one thread (event-log equality). Finer interleavings (every bytecode of the caller as a pre-emption point via sys.monitoring, mid-callback observations of the wait predicate, close during a callback's pull, completions during abort/between calls, native threading/multiprocessing runs) are explored by the harness and judged by oracles only - exploration, not proof. Modelled not verified: backend contract (each batch executed at most once, callback at most once), RLock, islice, Queue/deque, pickling to workers.",
+    technique="Lean 4 proof (invariant over the dispatch/completion/retrieval transition system) + event-log correspondence under a deterministic scheduler",
+    ref="6/C01, 13.2",
+)
+CHECKS["C04"] = dict(
+    text="error_surfaces, failing_batch_aborts + ret_means_no_exception, iterator_error_is_raised, timeout_raises (ordered retrieval), "
+    "call_terminates, clean_after_call/close/exhaustion, stale_callbacks_are_noops, next_call_is_fresh, second_call_correct over M1, "
+    "for all schedules and call sequences; same correspondence as C01 with failing tasks, failing iterator steps, fake-clock "
+    "timeouts and fail/succeed/fail call sequences.",
+    note="M1 granularity: completion callbacks are atomic and delivered at hook points of the caller (configure, compute_batch_size, sleep, consumer pauses) - exactly the schedules harness/ctl.py executes on the real Parallel on one thread (event-log equality). Finer interleavings (every bytecode of the caller as a pre-emption point via sys.monitoring, mid-callback observations of the wait predicate, close during a callback's pull, completions during abort/between calls, native threading/multiprocessing runs) are explored by the harness and judged by oracles only - exploration, not proof. Modelled not verified: backend contract (each batch executed at most once, callback at most once), RLock, islice, Queue/deque, pickling to workers." + " Worker-side traceback capture is covered by native runs only.",
+    technique="Lean 4 proof (invariants + clean-state re-establishment) + event-log correspondence under a deterministic scheduler",
+    ref="6/C04, 13.2",
+)
+CHECKS["C09"] = dict(
+    text="no_pull_after_abort, all_is_eager, pulls_only_in_locked_region, size_invariant, lookahead_bound_state, parked_bound, "
+    "lookahead_bound_partial (configuration-only when no batch completes during pre-dispatch), auto_batch_size_at_most_doubles, and "
+    "the F18 counterexample, over M1; same correspondence as C01 plus look-ahead/in-flight/re-entrancy oracles and a native-thread "
+    "probe with an input iterator that detects a second thread entering it.",
+    note="M1 granularity: completion callbacks are atomic and delivered at hook points of the caller (configure, compute_batch_size, sleep, consumer pauses) - exactly the schedules harness/ctl.py executes on the real Parallel on one thread (event-log equality). Finer interleavings (every bytecode of the caller as a pre-emption point via sys.monitoring, mid-callback observations of the wait predicate, close during a callback's pull, completions during abort/between calls, native threading/multiprocessing runs) are explored by the harness and judged by oracles only - exploration, not proof. Modelled not verified: backend contract (each batch executed at most once, callback at most once), RLock, islice, Queue/deque, pickling to workers." + " The unrestricted look-ahead bound is false of the code (F18, known finding); F29 known.",
+    technique="Lean 4 proof (size invariants of the transition system) + event-log correspondence + re-entrancy probe",
+    ref="6/C09, 13.2",
+)
+CHECKS["C16"] = dict(
+    text="promptness (a completed head batch is yielded without consuming any schedule entry or clock tick), "
+    "ordered_yields_in_order, unordered_each_exactly_once, unordered_completion_order_partial, overlap_raises, close_stops_dispatch, "
+    "close_leaves_clean over M1 with an explicit generator state and consumer operations (next, close, drop, call-again, pause).",
+    note="M1 granularity: completion callbacks are atomic and delivered at hook points of the caller (configure, compute_batch_size, sleep, consumer pauses) - exactly the schedules harness/ctl.py executes on the real Parallel on one thread (event-log equality). Finer interleavings (every bytecode of the caller as a pre-emption point via sys.monitoring, mid-callback observations of the wait predicate, close during a callback's pull, completions during abort/between calls, native threading/multiprocessing runs) are explored by the harness and judged by oracles only - exploration, not proof. Modelled not verified: backend contract (each batch executed at most once, callback at most once), RLock, islice, Queue/deque, pickling to workers.",
+    technique="Lean 4 proof (generator state machine over M1) + event-log correspondence with consumer operations",
+    ref="6/C16, 13.2",
+)
+CHECKS["C13"] = dict(
+    text="zfile_refines_stream(_chunks): for every chunking of the payload and every operation sequence (read n, read(), readinto, "
+    "readline, tell, seek with all whence modes) BinaryZlibFile's read-side state machine returns what the reference byte stream "
+    "returns; invariant_preserved, size_known_at_eof, write_concat, write_roundtrip; model-based operation sequences on the real "
+    "BinaryZlibFile/BinaryGzipFile fed with the actual decompressed chunk boundaries, oracle io.BytesIO.",
+    note="modelled not verified: zlib/gzip codecs (streaming law is a hypothesis), io.BufferedIOBase.readline/readinto defaults.",
+    technique="Lean 4 proof (refinement to a byte-stream spec by induction over the operation list) + model-based differential testing",
+    ref="6/C13",
+)
+CHECKS["C14"] = dict(
+    text="fill_terminates (every raw input: valid, truncated, with trailing bytes; the measure is the proof), wf_reachable, "
+    "truncation_never_lies, trailing_bytes_ignored, load_error_or_original, read_bytes_terminates_exact, damaged_entry_recomputes, "
+    "and the divergence theorems for the pre-fix _fill_buffer; every truncation length of small files and boundary-biased ones of "
+    "large files, every compressor, garbage and second-stream suffixes, through joblib.load and through a damaged Memory entry, each "
+    "in a subprocess with watchdog and address-space cap.",
+    note="modelled not verified: the codecs (monotonicity law as hypothesis), the unpickler contract (strict prefix => error); "
+    "bz2/lzma/xz file objects are CPython's own (outcome set only, termination by watchdog).",
+    technique="Lean 4 proof (termination measure + prefix lemmas) + exhaustive truncation/suffix differential runs",
+    ref="6/C14",
+)
+
 NOT_BUILT = "check not built yet in this round (planned: see DESIGN.md section 6); not claimed"
 NOT_APPLICABLE = {}
 
